@@ -122,4 +122,8 @@ Candidates(t, obs) ==
   { dl \in Dialects : /\ (Len(obs.types) = 1 \/ Occurs(t, dl.delim))
                        /\ (Occurs(t, dl.quote) \/ dl.quote = 34 \/ Occurs(t, 34)) }
 ReadOK(t, obs) == \E dl \in Candidates(t, obs) : Explains(t, dl, ~obs.gen, obs)
+(* An error outcome is admissible relative to the inferred dialect exactly when, under SOME dialect the reader may have
+   inferred, the text is not a well-formed table: its records do not all have the same number of fields. (The dialect the
+   reader chose is not observable when it fails; a text that is rectangular under every candidate dialect must be read.) *)
+ErrorOK(t) == \E dl \in Dialects : LET recs == Records(t, dl) IN recs # <<>> /\ ~Rect(recs)
 =============================================================================
